@@ -1,5 +1,6 @@
 #!/bin/bash
 # confirm_mutant.sh <mutant dir (patch.diff, demo file)> <demo file name> <dest path relative to repo root> <run regex> [pkg dir]
+# DEMO_FLAGS (environment) adds flags to the demo run, e.g. "-race" or "-tags verif".
 # Confirms in a scratch worktree: builds (with and without -tags verif), the whole
 # suite passes with the change, the demo fails with it and passes without it.
 set -u
@@ -15,9 +16,9 @@ B1=ok; go build ./... >/dev/null 2>&1 || B1=FAIL
 B2=ok; go build -tags verif ./... >/dev/null 2>&1 || B2=FAIL
 S=ok; go test -vet=off -count=1 ./... >/tmp/confirm_suite.log 2>&1 || S=FAIL
 cp "$MD/$DEMO" "$WT/$DEST"
-D1=fails; (cd $PKG && go test -vet=off -count=1 -run "$RUN" . >/tmp/confirm_demo1.log 2>&1) && D1=PASSES
+D1=fails; (cd $PKG && go test ${DEMO_FLAGS:-} -vet=off -count=1 -run "$RUN" . >/tmp/confirm_demo1.log 2>&1) && D1=PASSES
 git checkout -q -- . 
-D2=passes; (cd $PKG && go test -vet=off -count=1 -run "$RUN" . >/tmp/confirm_demo2.log 2>&1) || D2=FAILS
+D2=passes; (cd $PKG && go test ${DEMO_FLAGS:-} -vet=off -count=1 -run "$RUN" . >/tmp/confirm_demo2.log 2>&1) || D2=FAILS
 /verif/tools/reset_audit.sh >/dev/null 2>&1
 echo "CONFIRM build=$B1 build_verif=$B2 suite_with_change=$S demo_with_change=$D1 demo_without_change=$D2"
 [ "$B1$B2$S$D1$D2" = "okokokfailspasses" ]
